@@ -7,6 +7,8 @@ path resolver.
 
 from __future__ import annotations
 
+import json
+
 from typing import Any
 
 from liquid import DictLoader
@@ -35,7 +37,7 @@ REQUIRED = [
     ("liquid/utils/chain_map.py", "ReadOnlyChainMap.__getitem__"),
 ]
 
-MIN_COUNTERS = {"builtin_now_probes": 20}
+MIN_COUNTERS = {"macro_calls_judged": 100, "builtin_now_probes": 20, "templates_from_a_caching_loader_with_history": 100}
 NAMES = ["a", "b", "c", "now"]
 
 # ------------------------------------------------------------------ program -> source
@@ -74,6 +76,9 @@ def src_of(ops: list, partials: dict[str, str]) -> str:
             out.append(f"{{% {k} {op[1]} %}}")
         elif k == "if":
             out.append("{% if true %}" + src_of(op[1], partials) + "{% endif %}")
+        elif k == "macrocall":
+            out.append("{% macro " + op[1] + " " + ", ".join(op[2]) + " %}" + src_of(op[4], partials) + "{% endmacro %}")
+            out.append("{% call " + op[1] + (" " + ", ".join(f"{n}: {pv(v)}" for n, v in op[3].items()) if op[3] else "") + " %}")
         else:
             raise ValueError(k)
     return "".join(out)
@@ -102,18 +107,21 @@ class RScope:
         self.stack: list[dict[str, Any]] = []
         self.unspec = False
         self.saw_builtin = False
+        self.margs: dict[str, Any] = {}  # parameters of the macro being run: they sit where render arguments sit (below the body's own assigns)
 
     def lookup(self, name: str) -> Any:
         for ns in reversed(self.stack):
             if name in ns:
                 return ns[name]
-        for ns in (self.locals, self.args, self.matter, self.tg, self.eg):
+        for ns in (self.locals, self.margs, self.args, self.matter, self.tg, self.eg):
             if name in ns:
                 return ns[name]
         if name in ("now", "today"):
             self.saw_builtin = True  # the current time: its text is matched by shape, its *position* in the lookup order is judged
             return NOW
         if name in self.counters:
+            if self.margs:
+                self.unspec = True  # whether a macro body sees the caller's increment / decrement counters is not settled by the property
             return self.counters[name]
         return ""
 
@@ -167,6 +175,17 @@ class RScope:
                 out.append(str(v))
             elif k == "if":
                 out.append(self.run(op[1]))
+            elif k == "macrocall":
+                frame = {n: (self.lookup(v[1:]) if v.startswith("@") else v) for n, v in op[3].items()}
+                for n in op[2]:
+                    frame.setdefault(n, "")  # an omitted parameter is undefined inside the body, whatever the name means outside
+                frame.update(args="", kwargs="")
+                saved = (self.stack, self.locals, self.margs)
+                self.stack, self.locals, self.margs = [], {}, frame  # the body sees its parameters and global data, none of the caller's locals
+                try:
+                    out.append(self.run(op[4]))
+                finally:
+                    self.stack, self.locals, self.margs = saved
         return "".join(out)
 
 
@@ -303,18 +322,34 @@ def judge(ctx: core.Ctx, case: dict[str, Any]) -> None:
         src = src_of(case["ops"], partials)
         log: dict[str, int] = {}
         eg = Rec(case["eglobals"], "env_globals", log)
-        env = drv.make_env({"globals": eg, "extra": True}, loader=DictLoader(partials))
-        o = drv.call(env.from_string, src, globals=Rec(case["tglobals"], "template_globals", log), matter=Rec(case["matter"], "matter", log))
+        if case.get("loader_history"):
+            # the template comes from a caching loader that was first asked for the same name with other template globals: the second
+            # request's globals (possibly none at all) are the ones in effect, the earlier ones are gone
+            from liquid import CachingDictLoader
+
+            env = drv.make_env({"globals": eg, "extra": True}, loader=CachingDictLoader(dict(partials, main=src)))
+            stale = {n: f"STALE_{n}" for n in NAMES}
+            first = drv.call_async(env.get_template_async, "main", globals=stale) if case.get("async") else drv.call(env.get_template, "main", globals=stale)
+            if first.ok and case["loader_history"] == "rendered":
+                drv.render(first.value, dict(case["args"]))
+            kw = {"globals": Rec(case["tglobals"], "template_globals", log)} if (case["tglobals"] or case["loader_history"] == "explicit-empty") else {}
+            o = drv.call_async(env.get_template_async, "main", **kw) if case.get("async") else drv.call(env.get_template, "main", **kw)
+            ctx.count("templates_from_a_caching_loader_with_history")
+        else:
+            env = drv.make_env({"globals": eg, "extra": True}, loader=DictLoader(partials))
+            o = drv.call(env.from_string, src, globals=Rec(case["tglobals"], "template_globals", log), matter=Rec(case["matter"], "matter", log))
         args = dict(case["args"])
         args.setdefault("xs", ["X1", "X2"])
         if o.ok:
             o = drv.render_async(o.value, args) if case.get("async") else drv.render(o.value, args)
+        if '"macrocall"' in json.dumps(case["ops"]):
+            ctx.count("macro_calls_judged")
         m = RScope(case["args"], case["matter"], case["tglobals"], case["eglobals"])
         exp = m.run(case["ops"])
         for k2, v2 in log.items():
             ctx.count(f"answered_by:{k2}", v2)
         if m.unspec:
-            ctx.unspecified("builtin-now")
+            ctx.unspecified("counter-read-inside-a-macro-body")
             return
         if not o.ok:
             ctx.evaluations += 1
@@ -410,8 +445,16 @@ def gen_ops(rng, depth: int, pid: list[int]) -> list:
                     bind = [rng.choice(NAMES[:3]), rng.choice([None, "a", "b", "c"])]
                 kw = {n: (f"K{rng.randint(1, 9)}" if rng.random() < 0.6 else "@" + rng.choice(NAMES[:3])) for n in rng.sample(NAMES[:3], rng.randint(0, 3))}
                 ops.append(["include", pname, bind, kw, gen_ops(rng, depth + 1, pid)])
-            else:
+            elif r2 < 0.95 or depth > 1:
                 ops.append(["if", gen_ops(rng, depth + 1, pid)])
+            else:
+                # a macro defined and called on the spot: its parameters are block variables of its body (an omitted one is undefined, it
+                # does not fall through to an outer binding of the same name), and the body does not see the caller's locals
+                pid[0] += 1
+                params = rng.sample(NAMES[:3], rng.randint(1, 3))
+                passed = {n: (f"M{rng.randint(1, 9)}" if rng.random() < 0.6 else "@" + rng.choice(NAMES[:3])) for n in params if rng.random() < 0.5}
+                body = [op for op in gen_ops(rng, 3, pid) if op[0] in ("probe", "assign", "capture")] + [["probe", n] for n in NAMES[:3]]
+                ops.append(["macrocall", f"m{pid[0]}", params, passed, body])
         else:
             ops.append(["probe", name])
     return ops
@@ -422,6 +465,9 @@ def gen_scope(rng) -> dict[str, Any]:
         return {n: f"{tag}_{n}" for n in NAMES if rng.random() < p}
 
     ops = gen_ops(rng, 0, [0]) + [["probe", "a"], ["probe", "b"], ["probe", "c"]]
+    if rng.random() < 0.12:
+        return {"kind": "scope", "ops": ops, "args": layer("ARG", 0.3), "matter": {}, "tglobals": layer("TG", 0.4) if rng.random() < 0.6 else {}, "eglobals": layer("EG", 0.3) if rng.random() < 0.5 else {},
+                "async": rng.random() < 0.3, "loader_history": rng.choice(["loaded", "rendered", "explicit-empty"])}
     return {"kind": "scope", "ops": ops, "args": layer("ARG", 0.4), "matter": layer("MAT", 0.4), "tglobals": layer("TG", 0.4), "eglobals": layer("EG", 0.4), "async": rng.random() < 0.15}
 
 
